@@ -4,6 +4,7 @@ CONSTANTS
   Small = TRUE
 INVARIANT AllWF
 INVARIANT UnmentionedIsNoLayer
+INVARIANT LayerLawsCopyAgrees
 INVARIANT LDecomp
 INVARIANT LNegation
 INVARIANT SingletonLayersAreModuleRules
